@@ -58,13 +58,20 @@ def build_case(u):
     if cfg.version == "v1" and method == "getbulk":
         method = "getnext"
     driver = ("nb", "nb", "nb", "nb", "nb", "sync", "async", "nb")[u.below(8)]
+    # history: sometimes another walk (other base, other method) runs first on the same session
+    prior = None
+    if u.below(3) == 0 and names:
+        pm = u.choice(["getnext", "getbulk"]) if cfg.version != "v1" else "getnext"
+        pn = names[u.below(len(names))]
+        prior = (pm, pn[:u.range(2, len(pn))] if len(pn) > 2 else pn)
     return {"cfg": cfg, "mib": mib, "base": base, "method": method, "driver": driver, "maxrep": u.range(1, 50),
-            "cap": u.range(1, 50), "pad_eom": u.bool(), "allow_bulk": u.bool(3, 4)}
+            "cap": u.range(1, 50), "pad_eom": u.bool(), "allow_bulk": u.bool(3, 4), "prior": prior}
 
 
 def describe(c):
     return {"cfg": c["cfg"].describe(), "_cfg": gen.cfg_to_json(c["cfg"]), "base": list(c["base"]), "method": c["method"],
             "driver": c["driver"], "maxrep": c["maxrep"], "cap": c["cap"], "pad_eom": c["pad_eom"], "allow_bulk": c["allow_bulk"],
+            "prior": [c["prior"][0], list(c["prior"][1])] if c.get("prior") else None,
             "mib": [[list(k), v.kind, v.tlv, ({"float": repr(v.py)} if isinstance(v.py, float) else v.py)] for k, v in sorted(c["mib"].items())]}
 
 
@@ -117,7 +124,20 @@ def execute(G, c):
     elif c["method"] == "fetch":
         call = ("getnext", base_txt) if (cfg.version == "v1" or not c["allow_bulk"]) else ("getbulk", base_txt, c["maxrep"])
     exp = [(rb.oid_text(n), c["mib"][n]) for n in sorted(c["mib"]) if len(n) > len(c["base"]) and n[:len(c["base"])] == c["base"]]
-    out = drivers.run_api(G, c["driver"], cfg, call, handler, timeout=2.0, max_steps=len(c["mib"]) + 3, max_items=len(c["mib"]) + 5)
+    calls = [call]
+    if c.get("prior"):
+        pm, pb = c["prior"]
+        calls.insert(0, ("getnext", rb.oid_text(pb)) if pm == "getnext" else ("getbulk", rb.oid_text(pb), 7))
+    outs = drivers.run_calls(G, c["driver"], cfg, calls, handler, timeout=2.0, max_steps=len(c["mib"]) + 3, max_items=len(c["mib"]) + 5,
+                             **({"session_kw": kw["session_kw"]} if "session_kw" in kw else {}))
+    if len(outs) == 2:
+        pb = c["prior"][1]
+        pexp = [rb.oid_text(n) for n in sorted(c["mib"]) if len(n) > len(pb) and n[:len(pb)] == pb]
+        po = outs[0]
+        if po.kind != "ok" or [g[0] for g in po.value] != pexp:
+            raise core.Failure("prior-walk-wrong", "first walk %r on the session gave %r, subtree is %r" % (calls[0], po, pexp[:8]))
+        counter["n"] = len(outs[1].requests)
+    out = outs[-1]
     info = "%s(%s) [%s, %s, maxrep %d cap %d] over a MIB of %d entries" % (c["method"], base_txt, cfg.version, c["driver"], c["maxrep"], c["cap"], len(c["mib"]))
     if out.kind == "runaway":
         raise core.Failure("walk-does-not-end", "%s: still going after %d requests; yielded %r" % (info, counter["n"], [x[0] for x in out.partial][:10]))
@@ -168,7 +188,8 @@ def replay(rep, case, body=None):
     for k, kind, tlv, py in case["mib"]:
         mib[tuple(k)] = gen.Val(kind, float(py["float"]) if isinstance(py, dict) and "float" in py else py, tlv)
     c = {"cfg": gen.cfg_from_json(case["_cfg"]), "mib": mib, "base": tuple(case["base"]), "method": case["method"],
-         "driver": case["driver"], "maxrep": case["maxrep"], "cap": case["cap"], "pad_eom": case["pad_eom"], "allow_bulk": case["allow_bulk"]}
+         "driver": case["driver"], "maxrep": case["maxrep"], "cap": case["cap"], "pad_eom": case["pad_eom"], "allow_bulk": case["allow_bulk"],
+         "prior": (case["prior"][0], tuple(case["prior"][1])) if case.get("prior") else None}
     try:
         execute(G, c)
     except core.Failure as f:
